@@ -11,8 +11,8 @@ from .common import *
 
 WHERE = ("interpreter", "src/statements.rs")
 WHERE_ST = ("core", "src/program/symbol_table.rs")
-SLICE = ",".join(["f64", "u8", "bool", "string", "matrixd", "vectord", "row_vectord", "functions", "compiler", "access", "assign", "subscript_range",
-                  "subscript_slice", "logical_indexing", "subscript_formula", "tuple", "variable_define", "variable_assign", "kind_annotation", "convert"])
+from .c03 import SLICE_BASE as _SB
+SLICE = ",".join(dict.fromkeys(_SB + ["u8"]))
 
 
 def gen_scalar(t, tier):
